@@ -118,7 +118,27 @@ func c12Hosts() map[string]interface{} {
 		Z complex128
 		U uintptr
 	}
+	cx, ch, fn, up, ok := map[string]complex128{}, map[string]chan int{}, map[string]func(){}, map[string]uintptr{}, map[string]int{}
+	nested := map[string]map[string]complex64{}
+	for i := 0; i < 40; i++ {
+		k := fmt.Sprintf("k%02d", i)
+		cx[k], ch[k], fn[k], up[k], ok[k] = complex(float64(i), 1), make(chan int), func() {}, uintptr(i), i
+		nested[k] = map[string]complex64{"z": 1}
+	}
+	cx15, cx16, cx17 := map[string]complex128{}, map[string]complex128{}, map[string]complex128{}
+	for i := 0; i < 17; i++ {
+		k := fmt.Sprintf("k%02d", i)
+		if i < 15 {
+			cx15[k] = 1
+		}
+		if i < 16 {
+			cx16[k] = 1
+		}
+		cx17[k] = 1
+	}
 	return map[string]interface{}{
+		"typed map of 40 complex": cx, "typed map of 40 chan": ch, "typed map of 40 func": fn, "typed map of 40 uintptr": up, "typed map of 40 int": ok,
+		"typed map of 40 maps of complex": nested, "typed map of 15 complex": cx15, "typed map of 16 complex": cx16, "typed map of 17 complex": cx17,
 		"untyped nil": nil, "typed nil pointer": nilPtr, "pointer to nil pointer": pp, "pointer to pointer to nil pointer": ppp,
 		"nil map": nilMap, "pointer to nil map": &nilMap, "nil slice": nilSlice, "int": 42, "string": "s", "slice": []int{1},
 		"nested pointers": map[string]interface{}{"n": p2, "k": &p2},
